@@ -57,7 +57,7 @@ def octahedral():
             M = np.zeros((3, 3))
             for i, p in enumerate(perm):
                 M[i, p] = signs[i]
-            if abs(np.linalg.det(M) - 1) < 1e-9 and not np.allclose(M, np.eye(3)):
+            if not (abs(np.linalg.det(M) - 1) >= 1e-9) and not np.allclose(M, np.eye(3)):
                 o.append((("oct",), M))
     return o
 
@@ -151,7 +151,7 @@ def job_worker(part, job):
     # self-check of the reference: blocks are unitary
     for w, bl in blocks:
         for l, D in enumerate(bl):
-            if np.abs(D @ D.conj().T - np.eye(2 * l + 1)).max() > 1e-10:
+            if not (np.abs(D @ D.conj().T - np.eye(2 * l + 1)).max() <= 1e-10):
                 part.fail("harness:rotation-block", "reference rotation block not unitary (L=%d l=%d)" % (L, l), {"kind": "harness"})
                 return
     nN = L + 1
@@ -196,7 +196,7 @@ def job_worker(part, job):
                 r0 = ylm.real_layout_from_full(L, c)
                 r1 = ylm.real_layout_from_full(L, cr)
                 s0, s1 = sht.power_spectrum(r0), sht.power_spectrum(r1)
-                if np.abs(s0 - S0).max() / scale2 > 1e-9 or np.abs(s1 - s0).max() / scale2 > 1e-9:
+                if not (np.abs(s0 - S0).max() / scale2 <= 1e-9) or not (np.abs(s1 - s0).max() / scale2 <= 1e-9):
                     part.fail("power-spectrum-real-layout", "real-layout power spectrum differs from the complex one / is not invariant (L=%d)" % L, case)
                     break
         # functions whose band limit lies BELOW the stored maximum degree (top degrees exactly zero): number and positions of the
@@ -270,7 +270,7 @@ def locality_worker(part, L):
                       {"kind": "local", "L": L})
             break
         want = math.sqrt(float(np.sum(np.abs(c[lp * lp:(lp + 1) ** 2]) ** 2)))
-        if abs(N1[lp] - want) > 1e-12 * max(1, want):
+        if not (abs(N1[lp] - want) <= 1e-12 * max(1, want)):
             part.fail("N-value", "N invariant of degree %d is not the norm of that degree's coefficients (L=%d)" % (lp, L), {"kind": "local", "L": L})
             break
     part.outcome(("local", L))
@@ -312,7 +312,7 @@ def count_worker(part, _):
                 k = np.arange(n)
                 c = np.ascontiguousarray((np.sin(1.0 + 1.7 * k) + 0.3) + 1j * np.cos(0.3 + 2.3 * k))
                 Nn = np.array([math.sqrt(float(np.sum(np.abs(c[l * l:(l + 1) ** 2]) ** 2))) for l in range(L + 1)])
-                if np.abs(first[:L + 1] - Nn).max() > 1e-9 * Nn.max():
+                if not (np.abs(first[:L + 1] - Nn).max() <= 1e-9 * Nn.max()):
                     part.fail("N-block-first", "the first L+1 entries of the NP vector are not the per-degree norms (L=%d)" % L, {"kind": "count"})
             part.outcome(("count", kinds))
             asc[(L, kinds)] = first
